@@ -17,7 +17,8 @@ use crate::mon::{Stats, Violation};
 use crate::rng::Rng;
 use crate::sim::pipe::{Chunk, DirProfile};
 use crate::sim::{self, PipeEnd, PipeState, Sched, TaskKind};
-use crate::trace::{EvK, Side};
+use crate::mon;
+use crate::trace::{EvK, Op, Phase, Res, Side};
 use crate::wire::frame::*;
 use crate::wire::hpack_ref::Field;
 use std::cell::RefCell;
@@ -177,6 +178,11 @@ pub struct FloodReport {
     pub prelude_ok: bool,
     pub small_frame_overhead: u64,
     pub target_rst_after_flood: Option<u32>,
+    /// streams the peer opened, and those of them E answered with RST_STREAM, as seen at the very end
+    pub opened_ids: Vec<u32>,
+    pub rst_ids: Vec<u32>,
+    pub ended_ids: Vec<u32>,
+    pub closed_by_e: bool,
 }
 
 struct FloodState {
@@ -266,7 +272,9 @@ fn flood_item(p: &mut RawPeer, sc: &FloodScenario, st: &mut FloodState, i: usize
             }
             let block = p.encode_block(&fields);
             let mfs = p.sh.e_mfs as usize;
-            headers(sid, &block, true, None, None, mfs.min(block.len()), mfs, out);
+            // cut at the frame-size limit, or into many small CONTINUATION frames (each far below any limit)
+            let frag = if sc.variant % 2 == 0 { mfs } else { 100 + rng.usize_below(300) };
+            headers(sid, &block, true, None, None, frag.min(block.len()), frag, out);
             st.done = i >= 2;
             true
         }
@@ -574,6 +582,10 @@ async fn flood_peer(mut p: RawPeer, sc: FloodScenario, len: usize, rep: Rc<RefCe
         let mut r = rep.borrow_mut();
         r.goaway_codes = p.sh.e_goaways.iter().map(|g| g.1).collect();
         r.rst_codes = p.sh.streams.values().filter_map(|s| s.rst).collect();
+        r.opened_ids = p.used_ids.clone();
+        r.rst_ids = p.sh.streams.iter().filter(|(_, s)| s.rst.is_some()).map(|(i, _)| *i).collect();
+        r.ended_ids = p.sh.streams.iter().filter(|(_, s)| s.es || s.headers_blocks > 0).map(|(i, _)| *i).collect();
+        r.closed_by_e = p.sh.eof_from_e || p.write_failed;
     }
     p.close();
     p.serve_forever().await;
@@ -635,7 +647,35 @@ fn run_one(sc: &FloodScenario, len: usize) -> (Outcome, FloodReport, RunPeaks) {
         sim::spawn("raw-peer", TaskKind::App, flood_peer(RawPeer::new(0, Side::Server), sc.clone(), len, rep.clone(), hook.clone()));
     }
     let end = sim::run(6_000_000);
-    let out = finish_raw(end, e, &[&hook], |_view, _viol, _stats, _notes| {});
+    let rep_for_judge = rep.borrow().clone();
+    let scn = sc.clone();
+    let out = finish_raw(end, e, &[&hook], move |view, viol, stats, _notes| {
+        // C18: a request whose header list is far beyond max_header_list_size never reaches the application,
+        // however the block was cut into frames
+        if scn.e_server && scn.kind == "big-headers" && rep_for_judge.prelude_ok {
+            let est_list = 60usize * len;
+            let mhls = scn.cfg.max_header_list_size.unwrap_or(16 << 20) as usize;
+            if est_list > 2 * mhls {
+                stats.inc("flood.oversized_header_lists_sent");
+                let accepted: Vec<u32> = mon::apis(view.evs()).filter(|(_, a)| a.side == Side::Server && a.op == Op::Accept && a.phase == Phase::Ret && matches!(a.res, Res::Ok)).map(|(_, a)| a.sid).collect();
+                if let Some(sid) = rep_for_judge.opened_ids.iter().find(|i| accepted.contains(i)) {
+                    viol.push(Violation::new("C18", "oversized-header-list-delivered", format!("a request with about {} octets of header list ({} fields, cut into {}-octet fragments) was handed to the application on stream {} although max_header_list_size is {}", est_list, len, if scn.variant % 2 == 0 { "max_frame_size".to_string() } else { "100-400".to_string() }, sid, mhls)));
+                }
+            }
+        }
+        // C05: a stream opened beyond the limit is either refused or (within the limit) handed to the application -
+        // never silently dropped. Judged for the plain opening floods against a server that stayed up.
+        if scn.e_server && matches!(scn.kind, "open-only" | "open-es") && rep_for_judge.prelude_ok && !rep_for_judge.closed_by_e && rep_for_judge.goaway_codes.is_empty() {
+            let accepted: Vec<u32> = mon::apis(view.evs()).filter(|(_, a)| a.side == Side::Server && a.op == Op::Accept && a.phase == Phase::Ret && matches!(a.res, Res::Ok)).map(|(_, a)| a.sid).collect();
+            let lost: Vec<u32> = rep_for_judge.opened_ids.iter().filter(|i| !accepted.contains(i) && !rep_for_judge.rst_ids.contains(i) && !rep_for_judge.ended_ids.contains(i)).cloned().collect();
+            stats.add("flood.opened_streams_accounted", rep_for_judge.opened_ids.len() as u64);
+            // (an application that never accepts leaves streams within the limit waiting: only streams beyond it count)
+            let limit = scn.cfg.max_concurrent_streams.unwrap_or(u32::MAX) as usize;
+            if lost.len() > limit {
+                viol.push(Violation::new("C05", "excess-stream-neither-refused-nor-surfaced", format!("{} of {} streams the peer opened were neither handed to the application nor answered with RST_STREAM although the endpoint stayed up and only {} may wait within its limit: first {:?}", lost.len(), rep_for_judge.opened_ids.len(), limit, &lost[..lost.len().min(8)])));
+            }
+        }
+    });
     let peaks = {
         let st = hook.0.borrow();
         RunPeaks { unheld: st.max_unheld, held: st.max_held, recv_events: st.max_recv_buffer, send_frames: st.max_send_buffer, slab: st.max_slab, snapshots: st.count }
